@@ -313,7 +313,8 @@ impl Network {
         node: NodeIdx,
     ) -> impl Iterator<Item = NodeIdx> + '_ {
         self.vehicle_type_nodes_sorted_by_end[&vehicle_type]
-            .range(..(self.node(node).start_time(), NodeIdx::smallest()))
+            // include all nodes that end exactly at the start time (zero turnaround)
+            .range(..=(self.node(node).start_time(), NodeIdx::largest()))
             .filter_map(move |(_, &n)| {
                 if self.can_reach(n, node) {
                     Some(n)
